@@ -339,7 +339,8 @@ def main(tier, seed, only=None):
         "a loop (u, u) is outside the quantifier",
     ]
     shards = gcheck.split_shards(cases, lambda c: 40 * len(c['patterns']) if 'patterns' in c else 1 << nedges(c), 300)
-    par.run_shards(run, worker, shards, seed)
+    first, rest = gcheck.heavy_first(shards, _CASES)
+    par.run_shards(run, worker, rest, seed, first=first)
     cov = {
         "evaluations": run.c("evaluations"),
         "distinct_nontrivial": sum(1 << len(g[1]) for g in run.total.sets.get("graphs", ())),
